@@ -645,7 +645,7 @@ func nilWalk(fn *ssa.Function, from map[Edge]bool, after ssa.Instruction, cut ma
 			if v, ok := in.(ssa.Value); ok {
 				delete(f, v) // re-definition invalidates a stale fact (loops)
 			}
-			if ex, ok := in.(*ssa.Extract); ok && walkDescend != nil {
+			if ex, ok := in.(*ssa.Extract); ok {
 				// results of a call that was entered: what the path taken inside returned
 				if n, ok := f[retOf{ex.Tuple, ex.Index}]; ok {
 					f[ex] = n
